@@ -364,7 +364,18 @@ impl Cipher for RecCipher {
         });
         r
     }
-    // `rekey` deliberately uses the trait's default (types.rs), through `encrypt` and `set` above.
+    /// The wrapped cipher's OWN `rekey` is called (a backend may override the trait default of types.rs, and such an
+    /// override must be exercised by sessions too). The logged event and the key used for later log entries are the ones
+    /// the trait default produces (`ENCRYPT(k, 2^64-1, "", zeros32)[..32]`): if the backend derives something else, the
+    /// following ciphertexts differ from the model's and from the peer's expectation.
+    fn rekey(&mut self) {
+        let zeros = [0u8; 32];
+        let mut out = [0u8; 48];
+        self.log.lock().unwrap().push(Ev::Enc { key: self.key.to_vec(), n: u64::MAX, ad: vec![], pt: zeros.to_vec() });
+        self.inner.encrypt(u64::MAX, &[], &zeros, &mut out);
+        self.key.copy_from_slice(&out[..32]);
+        self.inner.rekey();
+    }
 }
 
 // ---------------------------------------------------------------- resolvers
